@@ -72,7 +72,7 @@ def run_job(job, ctx):
                     acc.add(c)
                 # the same sequences with the first line on the start tag's line and the last line on the end tag's line
                 # (no empty leading piece, no trailing line terminator), LF and CRLF
-                for eol in ("\n", "\r\n"):
+                for eol in (("\n", "\r\n") if ctx.tier == "thorough" else ("\r\n",)):
                     inl = []
                     for b in blocks:
                         ls = b.lines
